@@ -22,6 +22,18 @@ func interpBool(fn *ssa.Function, atom func(ssa.Value) (val, known bool)) (ret *
 // interpBoolP additionally hands back a resolver for (non-boolean) phis of the block the run ended in: the edge value that
 // corresponds to the branch taken.
 func interpBoolP(fn *ssa.Function, atom func(ssa.Value) (val, known bool)) (ret *ssa.Return, evalAt func(ssa.Value) (bool, bool), edgeOf func(*ssa.Phi) ssa.Value, ok bool) {
+	ret, evalAt, edgeOf, _, ok = interpRun(fn, atom, nil)
+	return
+}
+
+// interpReaches: under the assignment, does control reach block target before it reaches a return? (used for loops whose
+// body never changes the atoms: "is the loop entered at all")
+func interpReaches(fn *ssa.Function, atom func(ssa.Value) (val, known bool), target *ssa.BasicBlock) (reached, ok bool) {
+	_, _, _, reached, ok = interpRun(fn, atom, target)
+	return
+}
+
+func interpRun(fn *ssa.Function, atom func(ssa.Value) (val, known bool), target *ssa.BasicBlock) (ret *ssa.Return, evalAt func(ssa.Value) (bool, bool), edgeOf func(*ssa.Phi) ssa.Value, hitTarget, ok bool) {
 	var prev *ssa.BasicBlock
 	edgeOf = func(ph *ssa.Phi) ssa.Value {
 		for i, p := range ph.Block().Preds {
@@ -88,15 +100,18 @@ func interpBoolP(fn *ssa.Function, atom func(ssa.Value) (val, known bool)) (ret 
 	}
 	evalAt = func(v ssa.Value) (bool, bool) { return eval(v, 0) }
 	if len(fn.Blocks) == 0 {
-		return nil, evalAt, edgeOf, false
+		return nil, evalAt, edgeOf, false, false
 	}
 	b := fn.Blocks[0]
 	for steps := 0; steps < 200; steps++ {
+		if target != nil && b == target {
+			return nil, evalAt, edgeOf, true, true
+		}
 		switch t := b.Instrs[len(b.Instrs)-1].(type) {
 		case *ssa.If:
 			c, ok := eval(t.Cond, 0)
 			if !ok {
-				return nil, evalAt, edgeOf, false
+				return nil, evalAt, edgeOf, false, false
 			}
 			prev = b
 			if c {
@@ -109,12 +124,12 @@ func interpBoolP(fn *ssa.Function, atom func(ssa.Value) (val, known bool)) (ret 
 			prev, b = b, b.Succs[0]
 			enter(b)
 		case *ssa.Return:
-			return t, evalAt, edgeOf, true
+			return t, evalAt, edgeOf, false, true
 		default:
-			return nil, evalAt, edgeOf, false
+			return nil, evalAt, edgeOf, false, false
 		}
 	}
-	return nil, evalAt, edgeOf, false
+	return nil, evalAt, edgeOf, false, false
 }
 
 // decideByNilness evaluates fn for one assignment of nil/non-nil to the values recognised by isNil. It reports whether
